@@ -193,7 +193,29 @@ def literal_ops(lit):
     yield "w_bypath xkey:%s %s" % (sx(XPRV), sx("m/%d" % lit))
 
 
+def _collision_wallets(rng, tier):
+    """wallets (private and watch-only) whose master keys share the 4-byte fingerprint (corpus common.fp_pairs) or are
+    the same key under another chain code, looked up by the SAME path strings back to back in one process"""
+    from .c09 import point, sec_c
+    pairs = common.fp_pairs()
+    for ka, kb in (pairs[:2] if tier == "quick" else pairs):
+        ch1, ch2 = (bytes(rng.getrandbits(8) for _ in range(32)) for _ in range(2))
+        for watch in (False, True):
+            sibs = []
+            for k, ch in ((ka, ch1), (kb, ch1), (ka, ch2), (ka, ch1)):
+                if watch:
+                    x, y = point(k)
+                    sibs.append(common.xkey_string(0x0488B21E, 0, bytes(4), 0, ch, sec_c(x, y)))
+                else:
+                    sibs.append(common.xkey_string(0x0488ADE4, 0, bytes(4), 0, ch, b"\x00" + k.to_bytes(32, "big")))
+            paths = ["M/0/7", "M/1/2/3", "M/5"] if watch else ["m/84'/0'/0'/0/7", "m/84h/0h/0h/1/0", "m/44'/1", "m/0"]
+            for pth in paths:
+                for xk in sibs:
+                    yield "w_bypath xkey:%s %s" % (sx(xk), sx(pth)), "fp-collision-wallets" + ("-watch" if watch else "")
+
+
 def cases(rng, tier):
     from . import extra
     yield from _cases_core(rng, tier)
+    yield from _collision_wallets(rng, tier)
     yield from extra.cases_for('paths', rng, tier)
